@@ -146,6 +146,37 @@ CHECKS['C11'] = dict(
     note='Trusted: Lean kernel + 3 standard axioms; harness. Source filter / max_bytes are not part of cursor scripts (C10). '
          'History independence (no hidden state or timing) is tied to the code by the correspondence, the model being a pure function.')
 
+CHECKS['C18'] = dict(
+    text='Lean 4 theorems on the model of extract_fusion_engine_log: the output is the concatenation of the raw bytes of the '
+         'messages the sequential scan accepts and the count is their number; scanning the output afresh finds exactly those '
+         'messages at the offsets the index builder recorded (scan-of-concatenation lemma); extracting the output again gives the '
+         'same bytes and count; no message => no output file. Tied to utils/log.py and the p1_extract entry point by '
+         'correspondence (output bytes, count, written .p1i vs the .p1i of a fresh indexing of the output, second extraction).',
+    ref='4 C18', technique='Lean 4 proof (scan of a concatenation of whole messages; idempotence) + correspondence',
+    note='Inherits C08 (the reader iterates the index = sequential scan, messages within the indexer size limit). P1 times/types in '
+         'the written index are compared with a fresh indexing on the implementation (not in the Lean model). File system modelled.')
+CHECKS['C12'] = dict(
+    text='Lean 4: full cache transparency (C12_cache_transparent: for every registry with disjoint P1/system-time types, every '
+         'reader, log, call history of any length and final call, the final call returns what a fresh loader returns) and the '
+         'fresh-read specification (first/last N across requested types in file order, exact file order for return_in_order), proved '
+         'on an executable model of DataLoader._read by cache-invariant induction; the unrepaired code is shown non-transparent by '
+         'concrete histories. Tied to data_loader.py by correspondence on generated call histories; oracle = same call on a fresh loader.',
+    ref='4 C12', technique='Lean 4 invariant induction over call histories + refinement of one read to a closed form; correspondence',
+    note='The reader, time alignment and numpy conversion internals are parameters of the model, measured from the real code on every '
+         'run. Restricted to max_bytes=None, return_bytes=False and logs whose source ids are all discovered. Five repository defects '
+         'repaired (see KNOWN_FINDINGS.txt).')
+CHECKS['C01'] = dict(
+    text='Lean 4 layout language with executable parse/build/sizeOf; generic theorems by induction over layouts (parse-build round '
+         'trip, second serialisation reproduces the bytes, sizes agree, offset independence, buildInto frame) under a decidable '
+         'well-formedness predicate decided for all 92 descriptors regenerated from the Python classes on every run; Stable proved '
+         'for all non-float codecs. Descriptors tied to the classes by correspondence (unpack/pack/calcsize/pack-into vs '
+         'parseAt/build/sizeOf/buildInto, floats bit-exact); the property statement runs as oracle over all 52 registered classes, '
+         'header, Timestamp, MeasurementDetails and all sub-payloads.',
+    ref='4 C01', technique='Lean 4 induction over a layout language + translator (construct walker) + correspondence + property oracle',
+    note='PARTIAL: stability of float-arithmetic value codecs (Timestamp sec+ns, FixedPointAdapter, sentinel scalings) is a '
+         'hypothesis of the per-class theorem, tested exhaustively at 16 bits and on grids. Ten repository defects repaired; four '
+         'open findings (header reserved zeroing; Timestamp ns>=1e9 and sec>=2^32-1 encodings).')
+
 NOT_APPLICABLE = []
 
 
